@@ -10,10 +10,13 @@ package main
 
 import (
 	"bytes"
+	"encoding/hex"
 	"fmt"
 	"math/rand"
 	"runtime"
 	"runtime/debug"
+	"strconv"
+	"strings"
 	"syscall"
 
 	"github.com/arloliu/go-secs/v2/secs2"
@@ -119,6 +122,10 @@ func (x *runner) one(b []byte, class string, expect string) {
 			fail("input the E5 grammar rejects is accepted")
 		case okRef && cp.ok && end != len(cp.raw):
 			fail(fmt.Sprintf("decoded item spans %d bytes, the grammar says %d", len(cp.raw), end))
+		case okRef && cp.ok:
+			if want := refTree(b); want != cp.tree {
+				c.Fail("decoded VALUES (ToBoolean/ToInt/.. accessors) differ from the values the E5 grammar assigns to the bytes", kase+" got "+firstDiff(cp.tree, want))
+			}
 		}
 	}
 	switch expect {
@@ -208,6 +215,114 @@ func refAccept(b []byte, pos, depth int) (end int, ok bool) {
 		return 0, false
 	}
 	return pos + l, true
+}
+
+// refTree is an independent decoder of VALUES written from SEMI E5 section 9 (oracle only): it
+// renders the item at b[0:] in the syntax s2t.Show produces through the library's accessors.
+// Boolean: any non-zero byte is true. Integers: big-endian two's complement. Floats: the IEEE
+// bit pattern (binary32 NaNs canonicalised to quiet, as s2t.Show does: Go's float32->float64
+// widening quiets them). Only called on input refAccept accepts.
+func refTree(b []byte) string {
+	var sb strings.Builder
+	var walk func(pos int) int
+	walk = func(pos int) int {
+		if sb.Len() > 0 {
+			sb.WriteByte(' ')
+		}
+		fc, nl := int(b[pos]>>2), int(b[pos]&3)
+		l := 0
+		for i := 0; i < nl; i++ {
+			l = l<<8 | int(b[pos+1+i])
+		}
+		pos += 1 + nl
+		p := b[pos : pos+l*btoi(fc != 0)]
+		num := func(tag string, w int, signed bool, f4 bool) {
+			sb.WriteString(tag)
+			for i := 0; i+w <= len(p); i += w {
+				var u uint64
+				for _, x := range p[i : i+w] {
+					u = u<<8 | uint64(x)
+				}
+				if i > 0 {
+					sb.WriteByte(',')
+				}
+				switch {
+				case signed:
+					sh := uint(64 - 8*w)
+					sb.WriteString(strconv.FormatInt(int64(u<<sh)>>sh, 10))
+				case f4 && u&0x7f800000 == 0x7f800000 && u&0x007fffff != 0:
+					sb.WriteString(strconv.FormatUint(u|0x00400000, 10))
+				default:
+					sb.WriteString(strconv.FormatUint(u, 10))
+				}
+			}
+		}
+		switch fc {
+		case 0o00:
+			fmt.Fprintf(&sb, "L%d", l)
+			for i := 0; i < l; i++ {
+				pos = walk(pos)
+			}
+			return pos
+		case 0o10:
+			sb.WriteString("B:" + hex.EncodeToString(p))
+		case 0o11:
+			sb.WriteString("O:")
+			for _, x := range p {
+				if x != 0 {
+					sb.WriteByte('1')
+				} else {
+					sb.WriteByte('0')
+				}
+			}
+		case 0o20:
+			sb.WriteString("A:" + hex.EncodeToString(p))
+		case 0o21:
+			sb.WriteString("J:" + hex.EncodeToString(p))
+		case 0o22:
+			fmt.Fprintf(&sb, "W%d:%s", int(p[0])<<8|int(p[1]), hex.EncodeToString(p[2:]))
+		case 0o31:
+			num("I1:", 1, true, false)
+		case 0o32:
+			num("I2:", 2, true, false)
+		case 0o34:
+			num("I4:", 4, true, false)
+		case 0o30:
+			num("I8:", 8, true, false)
+		case 0o51:
+			num("U1:", 1, false, false)
+		case 0o52:
+			num("U2:", 2, false, false)
+		case 0o54:
+			num("U4:", 4, false, false)
+		case 0o50:
+			num("U8:", 8, false, false)
+		case 0o44:
+			num("F4:", 4, false, true)
+		case 0o40:
+			num("F8:", 8, false, false)
+		}
+		return pos + l
+	}
+	walk(0)
+	return sb.String()
+}
+
+// firstDiff shows the neighbourhood of the first difference between two renderings.
+func firstDiff(got, want string) string {
+	i := 0
+	for i < len(got) && i < len(want) && got[i] == want[i] {
+		i++
+	}
+	lo := max(0, i-24)
+	return fmt.Sprintf("...%s want ...%s (offset %d)", got[lo:min(len(got), i+24)], want[lo:min(len(want), i+24)], i)
+}
+
+func btoi(b bool) int {
+	if b {
+		return 1
+	}
+	return 0
 }
 
 func trunc(s string) string {
@@ -341,6 +456,38 @@ func (x *runner) mutate(enc []byte, depthOK bool) {
 		m[r.Intn(len(m))] ^= 1 << uint(r.Intn(8))
 		x.one(m, "mut2", "")
 	}
+	// payload classes the library's own encoder never emits but the grammar assigns a value to:
+	// Boolean bytes 0x02..0xFF (true), text bytes >= 0x80, NaN payloads / negative zero / all-ones
+	// patterns in numeric elements. The structure is unchanged, so the result must be accepted.
+	for k := 0; k < 8 && len(offs) > 0; k++ {
+		o := offs[r.Intn(len(offs))]
+		fc, nl, l, ok := rootHeader(enc[o:])
+		if !ok || fc == 0 || l == 0 || o+1+nl+l > len(enc) {
+			continue
+		}
+		m := append([]byte(nil), enc...)
+		p := m[o+1+nl : o+1+nl+l]
+		if fc == 0o22 {
+			p = p[min(2, len(p)):]
+		}
+		classes := []byte{0x00, 0x01, 0x02, 0x7f, 0x80, 0xfe, 0xff}
+		switch r.Intn(3) {
+		case 0: // one class byte everywhere
+			cb := classes[r.Intn(len(classes))]
+			for i := range p {
+				p[i] = cb
+			}
+		case 1: // class bytes mixed
+			for i := range p {
+				p[i] = classes[r.Intn(len(classes))]
+			}
+		default: // one position
+			if len(p) > 0 {
+				p[r.Intn(len(p))] = classes[2+r.Intn(5)]
+			}
+		}
+		x.one(m, "mut-payload", acc)
+	}
 	// length-field rewrites of a random header (keeping the number of length bytes where it fits)
 	for k := 0; k < 6 && len(offs) > 0; k++ {
 		o := offs[r.Intn(len(offs))]
@@ -460,6 +607,70 @@ func main() {
 			}
 			x.one(buf, "amplify", "")
 			x.one(buf[:len(buf)-1], "amplify", "")
+		}
+	}
+	// payload classes: every leaf type whose wire value set is larger than what the library's own
+	// encoder emits, lengths 1, 2, 3 and many, alone, inside lists, with non-canonical length fields
+	{
+		hdr := func(fc, nl, l int) []byte {
+			h := []byte{byte(fc<<2 | nl)}
+			for i := nl - 1; i >= 0; i-- {
+				h = append(h, byte(l>>(8*uint(i))))
+			}
+			return h
+		}
+		emit := func(item []byte) {
+			x.one(item, "payload-class", "accept")
+			x.one(append(append([]byte{0x01, 0x02}, item...), 0x25, 0x01, 0x80), "payload-class-in-list", "accept")
+			x.one(append(append([]byte{0x01, 0x01, 0x01, 0x03, 0xA5, 0x01, 0x01}, item...), item...), "payload-class-in-list", "accept")
+		}
+		classes := []byte{0x00, 0x01, 0x02, 0x7f, 0x80, 0xfe, 0xff}
+		for _, fc := range []int{0o11, 0o20, 0o21, 0o10} {
+			for _, cnt := range []int{1, 2, 3, 9, 300} {
+				for _, cb := range classes {
+					emit(append(hdr(fc, 1+btoi(cnt > 255), cnt), bytes.Repeat([]byte{cb}, cnt)...))
+				}
+				for k := 0; k < 3; k++ {
+					p := make([]byte, cnt)
+					for i := range p {
+						if k == 0 {
+							p[i] = classes[r.Intn(len(classes))]
+						} else {
+							p[i] = byte(r.Intn(256))
+						}
+					}
+					emit(append(hdr(fc, 1+btoi(cnt > 255)+btoi(k == 2 && cnt <= 255), cnt), p...))
+				}
+			}
+		}
+		// numeric elements: NaN payloads (quiet and signalling), +-0, +-Inf, subnormals, all-ones
+		f4 := []uint64{0, 0x80000000, 0x7f800000, 0xff800000, 0x7fc00000, 0x7fc00001, 0xffc12345, 0x7f800001, 0xffbfffff, 0x7fffffff, 1, 0x807fffff, 0xffffffff}
+		f8 := []uint64{0, 1 << 63, 0x7ff0000000000000, 0xfff0000000000000, 0x7ff8000000000000, 0x7ff8000000000001, 0xfff8123456789abc,
+			0x7ff0000000000001, 0xfff7ffffffffffff, 0x7fffffffffffffff, 1, 0x800fffffffffffff, 0xffffffffffffffff}
+		for _, t := range []struct {
+			fc, w int
+			vals  []uint64
+		}{{0o44, 4, f4}, {0o40, 8, f8}, {0o31, 1, []uint64{0, 0x7f, 0x80, 0xff}}, {0o32, 2, []uint64{0, 0x7fff, 0x8000, 0xffff}},
+			{0o34, 4, []uint64{0, 0x7fffffff, 0x80000000, 0xffffffff}}, {0o30, 8, []uint64{0, 1<<63 - 1, 1 << 63, 1<<64 - 1}},
+			{0o51, 1, []uint64{0xff}}, {0o52, 2, []uint64{0xffff}}, {0o54, 4, []uint64{0xffffffff}}, {0o50, 8, []uint64{1<<64 - 1}}} {
+			be := func(dst []byte, u uint64) []byte {
+				for i := t.w - 1; i >= 0; i-- {
+					dst = append(dst, byte(u>>(8*uint(i))))
+				}
+				return dst
+			}
+			for _, v := range t.vals {
+				emit(be(hdr(t.fc, 1, t.w), v))
+			}
+			for _, cnt := range []int{2, 3, 40} {
+				for k := 0; k < 3; k++ {
+					item := hdr(t.fc, 1+btoi(cnt*t.w > 255), cnt*t.w)
+					for i := 0; i < cnt; i++ {
+						item = be(item, t.vals[r.Intn(len(t.vals))])
+					}
+					emit(item)
+				}
+			}
 		}
 	}
 	// mutations of valid encodings
